@@ -642,7 +642,12 @@ impl CpcSketch {
             window_offset: determine_correct_offset(lg_k, num_coupons),
             sliding_window: uncompressed.window,
             merge_flag: !has_hip,
-            kxp,
+            // an empty image stores no kxp: a sketch without coupons has kxp = k (as in `new`)
+            kxp: if has_table || has_window {
+                kxp
+            } else {
+                (1u64 << lg_k) as f64
+            },
             hip_est_accum,
         })
     }
